@@ -86,18 +86,18 @@ func c07Default(c *cx) {
 		return
 	}
 	c.dom(id, f, cp, "default reply", []string{
-		"xmpp.isIQ(*start*.Name)",
+		"xmpp.isIQ(*.Name)",
 		"or(eq(xmpp.getIDTyp(*.Attr)#3,\"get\") | eq(xmpp.getIDTyp(*.Attr)#3,\"set\"))",
-		"!local:rw<*xmpp.responseChecker>.wroteResp",
+		"!local:*<*xmpp.responseChecker>.wroteResp",
 		"eq(" + hn + ",nil)",
 	})
 	// the converse: once an unanswered get/set IQ is established, every way
 	// out that is not an error return writes the reply (a path that gives up
 	// on the addressee and carries on leaves the request unanswered)
-	for _, ce := range g.EdgesMatching("!local:rw<*xmpp.responseChecker>.wroteResp") {
+	for _, ce := range g.EdgesMatching("!local:*<*xmpp.responseChecker>.wroteResp") {
 		isIQEdge := false
 		for _, a := range ce.Atoms {
-			if eng.Glob("xmpp.isIQ(*start*.Name)", a.S) {
+			if eng.Glob("xmpp.isIQ(*.Name)", a.S) {
 				isIQEdge = true
 			}
 		}
@@ -158,7 +158,7 @@ func c07Default(c *cx) {
 		}
 		return ""
 	}
-	c.r.Check(id, f, "default reply id", "K: the reply carries the request's id", iq.Pos(), eng.Glob("xmpp.getIDTyp(*start*.Attr)#2", fld(iq, "ID")), "ID is "+fld(iq, "ID"))
+	c.r.Check(id, f, "default reply id", "K: the reply carries the request's id", iq.Pos(), eng.Glob("xmpp.getIDTyp(*.Attr)#2", fld(iq, "ID")), "ID is "+fld(iq, "ID"))
 	c.r.Check(id, f, "default reply type", "K: the reply has type error", iq.Pos(), fld(iq, "Type") == "stanza.ErrorIQ", "Type is "+fld(iq, "Type"))
 	c.r.Check(id, f, "default reply condition", "K: cancel / service-unavailable", se.Pos(), fld(se, "Type") == "stanza.Cancel" && fld(se, "Condition") == "stanza.ServiceUnavailable", "error is "+fld(se, "Type")+"/"+fld(se, "Condition"))
 	// To: parsed from the request's from attribute
@@ -171,7 +171,7 @@ func c07Default(c *cx) {
 			case eng.DefZero:
 			case eng.DefTuple:
 				src := f.Norm(d.RHS, &d.At)
-				if !eng.Glob("jid.Parse(internal/attr.Get(*start*.Attr,\"from\")#1)", src) || d.Index != 0 {
+				if !eng.Glob("jid.Parse(internal/attr.Get(*.Attr,\"from\")#1)", src) || d.Index != 0 {
 					okTo, why = false, "To is defined by "+src
 				}
 			default:
@@ -181,7 +181,7 @@ func c07Default(c *cx) {
 	}
 	c.r.Check(id, f, "default reply addressee", "P: the reply is addressed to the parsed 'from' of the request (absent when the request named none)", iq.Pos(), okTo, why)
 	// when a from is present, the parse happens on every path to the reply
-	for _, ce := range g.EdgesMatching("!eq(internal/attr.Get(*start*.Attr,\"from\")#1,\"\")") {
+	for _, ce := range g.EdgesMatching("!eq(internal/attr.Get(*.Attr,\"from\")#1,\"\")") {
 		from := g.EdgeTarget(ce.E)
 		isParse := func(q eng.Point, nd ast.Node) bool { return f.ContainsCall(nd, "jid.Parse") != nil }
 		c.r.Check(id, f, "from parsed before the reply", "O: a non-empty from is parsed (and stored as To) before the reply is written", cp.Pos(), g.MustPassBefore(from, cpt, isParse, nil), "reply reachable with a non-empty from that was not parsed")
